@@ -217,10 +217,17 @@ def run(ctx):
                          # a file the script handler claims (mode) and the kernel will not run
                          (b"/docs/notaprogram\r\n", False), (b"/docs/notaprogram\t+\r\n", False), (b"GET /docs/notaprogram HTTP/1.0\r\n\r\n", False),
                          (b"gemini://h/docs/notaprogram\r\n", True), (b"h /docs/notaprogram 0\r\n", False), (b"GET /wap/docs/notaprogram HTTP/1.0\r\n\r\n", False),
+                         # a NUL in the selector or in the search string (the shipped log method is syslog, which takes no NUL;
+                         # neither does an argument vector)
+                         (b"/a\0b\r\n", False), (b"/a\0b\t+\r\n", False), (b"GET /a%00b HTTP/1.0\r\n\r\n", False), (b"gemini://h/a%00b\r\n", True),
+                         (b"h /a%00b 0\r\n", False), (b"/docs/a\0.txt\t!\r\n", False), (b"/script.sh\ta\0b\r\n", False),
+                         (b"GET /script.sh?searchrequest=a%00b HTTP/1.0\r\n\r\n", False), (b"h /script.sh 3\r\na\0b", False),
                          # two scripts with the same modification second, one after the other
                          (b"/hello.pyg\r\n", False), (b"/docs/two.pyg\r\n", False), (b"/hello.pyg\t!\r\n", False), (b"/docs/two.pyg\t+\r\n", False)]
                 requests = fixed + requests
                 seq_out = []
+                # the shipped handler list logs the way the shipped configuration does (syslog); the full list to a file
+                pyg.LOG_THROUGH = "syslog" if listname == "shipped" else "file"
                 for rq, tls in requests:
                     r, dt = ask(cfg, tree, rq, tls, listname == "full")
                     slowest = max(slowest, dt)
@@ -297,6 +304,7 @@ def run(ctx):
                                       observed=seq_out[i][:200], required=mask(r.out or b"")[:200],
                                       replay={"handlers": listname, "request_latin1": rq.decode("latin-1"), "tls": tls})
             finally:
+                pyg.LOG_THROUGH = None
                 shutil.rmtree(pristine, ignore_errors=True)
         finally:
             tree.close()
